@@ -76,18 +76,29 @@ pub fn n_squeezes<const N: usize>(i: &mut Inp) -> Out {
 // 1 = absorb felt, 2 = absorb vector of 2, 3 = absorb u64, 4 = squeeze, 0 = end.
 // DIFF = index of the absorb operation whose message differs between the two runs.
 pub const HIST_LEN: usize = 4 + 5 * 8 * 2 + 1;
-fn run_ops<const OPS: u32>(d: Felt, msgs: &[[Felt; 2]; 5], us: &[u64; 5], out: &mut Vec<Felt>, at: &mut Vec<usize>) {
+fn run_ops<const OPS: u32>(d: Felt, msgs: &[[Felt; 2]; 5], us: &[u64; 5], out: &mut Vec<Felt>, at: &mut Vec<usize>, epoch: &mut Vec<usize>) {
     let mut t = Transcript::new(d);
+    let mut absorbs = 0;
     let mut k = 0;
     while k < 5 {
         let op = (OPS >> (3 * k)) & 7;
         match op {
-            1 => t.read_felt_from_prover(&msgs[k][0]),
-            2 => t.read_felt_vector_from_prover(&msgs[k][..]),
-            3 => t.read_uint64_from_prover(us[k]),
+            1 => {
+                t.read_felt_from_prover(&msgs[k][0]);
+                absorbs += 1
+            }
+            2 => {
+                t.read_felt_vector_from_prover(&msgs[k][..]);
+                absorbs += 1
+            }
+            3 => {
+                t.read_uint64_from_prover(us[k]);
+                absorbs += 1
+            }
             4 => {
                 out.push(t.random_felt_to_prover());
-                at.push(k)
+                at.push(k);
+                epoch.push(absorbs)
             }
             _ => {}
         }
@@ -121,8 +132,9 @@ pub fn history<const OPS: u32, const DIFF: usize>(i: &mut Inp) -> Out {
     };
     crate::compat::assume(differs);
     let (mut c1, mut a1, mut c2, mut a2) = (Vec::new(), Vec::new(), Vec::new(), Vec::new());
-    run_ops::<OPS>(d, &m1, &u1, &mut c1, &mut a1);
-    run_ops::<OPS>(d, &m2, &u2, &mut c2, &mut a2);
+    let (mut e1, mut e2) = (Vec::new(), Vec::new());
+    run_ops::<OPS>(d, &m1, &u1, &mut c1, &mut a1, &mut e1);
+    run_ops::<OPS>(d, &m2, &u2, &mut c2, &mut a2, &mut e2);
     let mut ok = check(c1.len() == c2.len(), "challenge count");
     let mut k = 0;
     while k < c1.len() && k < c2.len() {
@@ -131,10 +143,12 @@ pub fn history<const OPS: u32, const DIFF: usize>(i: &mut Inp) -> Out {
         } else {
             ok = ok.and(check(c1[k] != c2[k], "a challenge does not change when an EARLIER message changes"));
         }
-        // pairwise different within a run (in particular without an intervening message)
+        // challenges drawn without an intervening message are pairwise different
         let mut j = 0;
         while j < k {
-            ok = ok.and(check(c1[j] != c1[k], "two challenges of one run coincide"));
+            if e1[j] == e1[k] {
+                ok = ok.and(check(c1[j] != c1[k], "two challenges drawn without an intervening message coincide"));
+            }
             j += 1;
         }
         k += 1;
